@@ -11,7 +11,11 @@ use crate::util::{Ctx, J, Outcome, Report, catch, floor, fnv, run_sharded, short
 
 const MON: &str = "port_setup";
 
-const BAUDS: [BaudRate; 12] = [
+const BAUDS: [BaudRate; 15] = [
+    // rates outside the named set (a custom divisor; 19200 spelled the long way; an absurd one)
+    BaudRate::BaudOther(250_000),
+    BaudRate::BaudOther(19_200),
+    BaudRate::BaudOther(0),
     BaudRate::Baud110,
     BaudRate::Baud300,
     BaudRate::Baud600,
@@ -236,7 +240,8 @@ pub fn run(ctx: &Ctx) -> Outcome {
         if i % 4 == 1 {
             for pt in [Duration::from_secs(5), Duration::from_secs(10), Duration::from_millis(777), Duration::from_secs(1)] {
                 PRIOR_TIMEOUT.with(|c| c.set(Some(pt)));
-                for e in [Entry::ConfigurePort(Duration::from_millis(777)), Entry::SerialSignBus, Entry::Odk] {
+                // (a requested timeout of zero is a timeout like any other: it replaces the one the port carries)
+                for e in [Entry::ConfigurePort(Duration::from_millis(777)), Entry::ConfigurePort(Duration::ZERO), Entry::SerialSignBus, Entry::Odk] {
                     run_case(prior, e, Fault::None, 0, rep);
                     for fk in 0..FAULT_KINDS.len() {
                         for fault in [Fault::ReadSettings, Fault::Baud, Fault::WriteSettings, Fault::SetTimeout] {
@@ -287,23 +292,23 @@ pub fn run(ctx: &Ctx) -> Outcome {
         rep.count("priors_done");
     });
     let mut floors = vec![
-        floor("all 864 prior settings", report.get("priors_done") == 864, report.get("priors_done")),
-        floor("transient (one- and two-shot) refusals at every fault point for every prior", report.get("transient_fault_cases") == 864 * 3 * 4 * 2, report.get("transient_fault_cases")),
-        floor("sub-millisecond, fractional and very long caller timeouts", report.get("unusual_timeouts_applied") == 108 * 10, report.get("unusual_timeouts_applied")),
-        floor("ports that already carry a read timeout (equal to / different from the one asked for), every error kind at every fault point", report.get("cases_on_a_port_with_a_timeout_already_set") == (216 * 4 * 3 * FAULT_KINDS.len() * 4) as u64, report.get("cases_on_a_port_with_a_timeout_already_set")),
+        floor("all 1080 prior settings", report.get("priors_done") == 1080, report.get("priors_done")),
+        floor("transient (one- and two-shot) refusals at every fault point for every prior", report.get("transient_fault_cases") == 1080 * 3 * 4 * 2, report.get("transient_fault_cases")),
+        floor("sub-millisecond, fractional and very long caller timeouts", report.get("unusual_timeouts_applied") == 135 * 10, report.get("unusual_timeouts_applied")),
+        floor("ports that already carry a read timeout (equal to / different from the one asked for), every error kind at every fault point", report.get("cases_on_a_port_with_a_timeout_already_set") == (270 * 4 * 4 * FAULT_KINDS.len() * 4) as u64, report.get("cases_on_a_port_with_a_timeout_already_set")),
         floor("one port object configured 70 000 times", report.get("repeated_setups_of_one_port") == 70_000, report.get("repeated_setups_of_one_port")),
         floor("every error kind (7, incl. Interrupted) at every fault point (4)", report.set_len("fault_kind_x_point") == 28, report.set_len("fault_kind_x_point")),
     ];
     for e in ["configure_port", "SerialSignBus", "Odk"] {
         for f in ["None", "ReadSettings", "Baud", "WriteSettings", "SetTimeout"] {
             let n = report.get(&format!("cells/{}/{}", e, f));
-            floors.push(floor(&format!("cell {} x fault {}", e, f), n >= 864, n));
+            floors.push(floor(&format!("cell {} x fault {}", e, f), n >= 1080, n));
         }
     }
     Outcome {
         report,
         level: "fault_enumeration",
-        rule: "complete product: 12 baud values x 4 character sizes x 3 parities x 2 stop bits x 3 flow controls = 864 prior settings x 3 entry points (configure_port with timeouts 0, 1 ms, 5 s, 1 h, and on every 8th prior 1 ns, 600 us, 1563 us, 1 ms + 1 ns, 999.999999 ms, 24 and 30 days, 2^32 s, Duration::MAX; SerialSignBus::try_new; Odk::try_new) x (no fault + a persistent failure of read_settings / baud-rate setter / write_settings / set_timeout), plus one- and two-shot refusals at every fault point for every prior, plus all 7 error kinds (NoDevice, InvalidInput, Io(PermissionDenied / Interrupted / TimedOut / WouldBlock / Other)) at every fault point on a sample of priors; distinct by (prior, entry, fault); all non-trivial".into(),
+        rule: "complete product: 15 baud values (the 12 named rates and BaudOther(250000), BaudOther(19200), BaudOther(0)) x 4 character sizes x 3 parities x 2 stop bits x 3 flow controls = 1080 prior settings x 3 entry points (configure_port with timeouts 0, 1 ms, 5 s, 1 h, and on every 8th prior 1 ns, 600 us, 1563 us, 1 ms + 1 ns, 999.999999 ms, 24 and 30 days, 2^32 s, Duration::MAX; SerialSignBus::try_new; Odk::try_new) x (no fault + a persistent failure of read_settings / baud-rate setter / write_settings / set_timeout), plus one- and two-shot refusals at every fault point for every prior, plus all 7 error kinds (NoDevice, InvalidInput, Io(PermissionDenied / Interrupted / TimedOut / WouldBlock / Other)) at every fault point on a sample of priors; distinct by (prior, entry, fault); all non-trivial".into(),
         exhaustive: true,
         floors,
         assumptions: vec![
